@@ -14,6 +14,8 @@ add('C01','break: safe_to_stan catch-all narrowed','break',[('pydoctor/epydoc2st
 add('C01','break: parse result not tested','break',[('pydoctor/model.py',"            if ast:\n                self.processing_modules.append(mod.fullName())","            if True:\n                self.processing_modules.append(mod.fullName())")],['R01.2'])
 add('C01','break: docformat literal_eval handler narrowed (F1 returns)','break',[('pydoctor/astbuilder.py',"        value = ast.literal_eval(node.value)\n    except (ValueError, TypeError):","        value = ast.literal_eval(node.value)\n    except ValueError:")],['R01.1'])
 
+add('C01','break: unstring_annotation handles SyntaxError only (F14 returns)','break',[('pydoctor/astutils.py',"    except (SyntaxError, ValueError) as ex:","    except SyntaxError as ex:")],['R01.1'])
+
 # ---------------- C02
 add('C02','twin: del -> pop in reparent','twin',[('pydoctor/model.py',"        del old_parent.contents[old_name]","        old_parent.contents.pop(old_name)")])
 add('C02','twin: _remove iterates without the list copy variable','twin',[('pydoctor/model.py',"        oc = list(o.contents.values())\n        for c in oc:\n            self._remove(c)","        for c in list(o.contents.values()):\n            self._remove(c)")])
